@@ -60,7 +60,7 @@ var strPool = []string{"", "a", "hello", "x y", "it works", "A-Z", "100%", "semi
 
 func (g *Syn) str() *Node { return Str(strPool[g.R.IntN(len(strPool))]) }
 
-var tplPool = []string{"", "t", "multi word", "a+b", "x;y", "(p)", "{b}", "it's", "say \"hi\"", "// no", "line1\nline2", "a\n  b\n"}
+var tplPool = []string{"", "t", "trail  \n  next", " lead\n\ttab\t\nend ", "multi word", "a+b", "x;y", "(p)", "{b}", "it's", "say \"hi\"", "// no", "line1\nline2", "a\n  b\n"}
 
 func (g *Syn) tpl() *Node { return &Node{K: KTpl, Text: tplPool[g.R.IntN(len(tplPool))]} }
 
